@@ -365,6 +365,13 @@ class Cfg:
         heap[key] = val
         return Cfg(self.env, heap, self.trace, self.assume, self.facts)
 
+    def hdel(self, key):
+        if key not in self.heap:
+            return self
+        heap = dict(self.heap)
+        del heap[key]
+        return Cfg(self.env, heap, self.trace, self.assume, self.facts)
+
     def with_env(self, env):
         return Cfg(env, self.heap, self.trace, self.assume, self.facts)
 
@@ -802,12 +809,26 @@ class Interp:
         cur = [cfg]
         i = 0
         done = []
+        gkey = None
+        if isinstance(expr, ast.Attribute):
+            sub = Out()
+            b = self.ev(expr.value, cfg, sub)
+            if len(b) == 1 and isinstance(b[0][1], ObjV):
+                gkey = f"$gen:{b[0][1].oid}.{expr.attr}"
+        gen0 = cfg.heap.get(gkey) if gkey else None
+        snap = f"$snap:{id(stmt)}:{self.depth}"
         while cur and i < 64:
             nxt = {}
             for c in cur:
                 sub = Out()
-                vals = self.ev(expr, c, sub)
-                cont = vals[0][1] if len(vals) == 1 else None
+                if gkey is not None and c.heap.get(gkey) != gen0 and c.heap.get(snap) is not None:
+                    # the attribute was re-assigned meanwhile: the iterator still holds the object it started on
+                    cont = c.heap.get(snap)
+                else:
+                    vals = self.ev(expr, c, sub)
+                    cont = vals[0][1] if len(vals) == 1 else None
+                    if gkey is not None and isinstance(cont, (ListV, DictV)):
+                        c = c.hset(snap, cont)
                 if view is None:
                     items = list(cont.items) if isinstance(cont, ListV) else []
                 else:
@@ -830,6 +851,8 @@ class Interp:
                     out.extend("raise", o.get("raise"))
             cur = list(nxt.keys())
             i += 1
+        if gkey is not None:
+            done = [c.hdel(snap) if hasattr(c, "hdel") else c for c in done]
         if done:
             if stmt.orelse:
                 out.merge(self.exec_block(stmt.orelse, done))
@@ -1066,6 +1089,10 @@ class Interp:
             for c, base in self.ev(tgt.value, cfg, out):
                 if isinstance(base, ObjV):
                     c = c.hset(f"{base.oid}.{tgt.attr}", val)
+                    if getattr(self.policy, "live_lists", False):
+                        # an assignment binds the attribute to another object: loops still walking the old object keep it (see _loop_live)
+                        g = c.heap.get(f"$gen:{base.oid}.{tgt.attr}")
+                        c = c.hset(f"$gen:{base.oid}.{tgt.attr}", Const((g.v if isinstance(g, Const) else 0) + 1))
                 elif isinstance(base, ClassV):
                     c = c.hset(f"{base.name}.{tgt.attr}", val)
                 elif isinstance(base, NodeV):
@@ -1829,12 +1856,20 @@ class Interp:
         for c in o.get("return"):
             v = c.env.get("$ret", NONE)
             env2 = caller_env
+            attr_wb = []
             if wb:
                 env2 = dict(caller_env)
-                for pname, cname in wb:
-                    if pname in c.env and isinstance(c.env[pname], (ListV, DictV)) and cname in env2:
-                        env2[cname] = c.env[pname]
-            res.append((c.with_env(env2), v))
+                for pname, target in wb:
+                    if pname in c.env and isinstance(c.env[pname], (ListV, DictV)):
+                        if isinstance(target, ast.Name):
+                            if target.id in env2:
+                                env2[target.id] = c.env[pname]
+                        else:
+                            attr_wb.append((target, c.env[pname]))
+            c2 = c.with_env(env2)
+            for target, val in attr_wb:
+                c2 = self.store_back(target, val, c2)
+            res.append((c2, v))
         for c in o.get("raise"):
             exc = c.env.get("$exc")
             out.add("raise", c.with_env(caller_env).set("$exc", exc))
@@ -1847,8 +1882,12 @@ class Interp:
         rebound = {t.id for n in ast.walk(fn) for t in (n.targets if isinstance(n, ast.Assign) else []) if isinstance(t, ast.Name)}
         pairs = []
         for p, a in zip(pos, call.args):
-            if isinstance(a, ast.Name) and p.arg not in rebound:
-                pairs.append((p.arg, a.id))
+            if isinstance(a, (ast.Name, ast.Attribute)) and p.arg not in rebound:
+                pairs.append((p.arg, a))
+        names = {p.arg for p in pos} | {p.arg for p in fn.args.kwonlyargs}
+        for kw in call.keywords:
+            if kw.arg in names and isinstance(kw.value, (ast.Name, ast.Attribute)) and kw.arg not in rebound:
+                pairs.append((kw.arg, kw.value))
         return pairs
 
     # -- builtins over abstract values -------------------------------------
